@@ -386,7 +386,7 @@ let do_session (text : string) : string =
         match String.index_opt it '|' with
         | Some i -> (nat_of_int (int_of_string (String.sub it 0 i)), coq_of_string (String.sub it (i + 1) (String.length it - i - 1)))
         | None -> (nat_of_int 0, coq_of_string it)) items in
-    let (outs, st) = uci_session extra input in
+    let (outs, st) = uci_session extra [] input in   (* no deadline oracles: the scripted sessions never run a search with a positive time budget *)
     let render = function
       | OText s -> string_of_coq s
       | OSearchOut o -> string_of_coq (render_out o)
